@@ -219,7 +219,23 @@ func c18Child(args []string) {
 	for k := 0; k+2 < len(plain); k += 3 {
 		g := []int{plain[k], plain[k+1], plain[k+2]}
 		sort.Ints(g)
-		pkgOf[g[0]] = g
+		// one definition per structure name within a package (interfaces of different pools may use one
+		// name for different structures: that is the collision class, kept apart)
+		defs := map[string]string{}
+		consistent := true
+		for _, m := range g {
+			for _, a := range itfs[m].Acts {
+				for name, def := range structDefs(a.Sig + " " + a.Ret) {
+					if old, ok := defs[name]; ok && old != def {
+						consistent = false
+					}
+					defs[name] = def
+				}
+			}
+		}
+		if consistent {
+			pkgOf[g[0]] = g
+		}
 	}
 	sum := childSummary{Extra: map[string]interface{}{}}
 	alone, packages, actions := 0, 0, 0
@@ -248,6 +264,51 @@ func c18Child(args []string) {
 		sum.Evaluations++
 	}
 	j.finish(j.snapshot())
+}
+
+// structDefs: name -> text of every named structure "(members)<Name,fields>" occurring in the signatures
+func structDefs(sig string) map[string]string {
+	out := map[string]string{}
+	for i := 0; i < len(sig); i++ {
+		if sig[i] != '<' || i == 0 || sig[i-1] != ')' {
+			continue
+		}
+		// the balanced "(...)" that ends at i-1
+		depth, st := 0, -1
+		for k := i - 1; k >= 0; k-- {
+			if sig[k] == ')' {
+				depth++
+			} else if sig[k] == '(' {
+				depth--
+				if depth == 0 {
+					st = k
+					break
+				}
+			}
+		}
+		// the matching '>'
+		d, en := 0, -1
+		for k := i; k < len(sig); k++ {
+			if sig[k] == '<' {
+				d++
+			} else if sig[k] == '>' {
+				d--
+				if d == 0 {
+					en = k
+					break
+				}
+			}
+		}
+		if st < 0 || en < 0 {
+			continue
+		}
+		name := sig[i+1 : en]
+		if c := strings.IndexByte(name, ','); c >= 0 {
+			name = name[:c]
+		}
+		out[name] = sig[st : en+1]
+	}
+	return out
 }
 
 func c18Main(args []string) {
